@@ -27,6 +27,7 @@ LEVEL_TEXT = ("Every cell of the table exception-source (18, incl. SyntaxError a
               "visited (quick: with two fixed messages; thorough: plus tens of thousands of drawn messages) and the verdict, "
               "the recorded exception class and the trace of statements before/after are compared with the table written "
               "from the statement. Fault-enumeration style exploration of a finite table with sampled parameters.")
+LEVEL_ADDED = ('Sources include exceptions raised under a top-level await (expression statement, assignment, async with).')
 LEVEL_NOTE = ("Trusted: CPython's traceback.format_exception_only for the true final line; the oracle table (DESIGN 6.3). "
               "SyntaxError, exception notes and wants holding a traceback header after other output are outside the domain; "
               "IGNORE_WANT on code that does not raise is not asserted.")
